@@ -522,19 +522,23 @@ Fixpoint write_tables (w : world) (f : fid) (g : nat) (ts : list (string * tblsr
       match bind w f g n (Hard o) with Some w2 => write_tables w2 f g r | None => None end
   end.
 
-(** f.create_group(path): ValueError when the name exists or a component cannot be traversed *)
-Definition create_group (w : world) (f : fid) (p : path) : outcome * world :=
+(** f.create_group(path): ValueError when the name exists or a component cannot be traversed;
+    on success also the new group (file, object id) *)
+Definition create_group (w : world) (f : fid) (p : path) : outcome * world * (fid * nat) :=
   match split_last p with
-  | None => (EValue, w)
+  | None => (EValue, w, (f, O))
   | Some (par, n) =>
       match ensure w f O par with
-      | None => (EValue, w)
+      | None => (EValue, w, (f, O))
       | Some (w1, _, f1, g) =>
           match lookup_link w1 f1 g n with
-          | Some _ => (exists_err w1 f1 g n EValue, w)
+          | Some _ => (exists_err w1 f1 g n EValue, w, (f, O))
           | None =>
               let '(w2, o) := alloc w1 f1 (Group [] []) in
-              match bind w2 f1 g n (Hard o) with Some w3 => (Ok, w3) | None => (EValue, w) end
+              match bind w2 f1 g n (Hard o) with
+              | Some w3 => (Ok, w3, (f1, o))
+              | None => (EValue, w, (f, O))
+              end
           end
       end
   end.
@@ -555,27 +559,23 @@ Definition create (w : world) (f : fid) (p : path) (mode_w : bool) (spec : cspec
   let w0 := if mode_w || negb (file_exists w f) then set_store w f (Some empty_store) else w in
   let prep :=
     match p with
-    | [] => (Ok, del_if_present w0 f ["chroms"; "bins"; "pixels"; "indexes"]%string)
+    | [] => (Ok, del_if_present w0 f ["chroms"; "bins"; "pixels"; "indexes"]%string, (f, O))
     | _ => match create_group w0 f p with
-           | (Ok, w1) => (Ok, w1)
-           | (EValue, _) => match del_link w0 f p with          (* except ValueError: del f[path]; create again *)
-                            | (Ok, w1) => create_group w1 f p
-                            | (e, w1) => (e, w1)
-                            end
-           | (e, _) => (e, w0)
+           | (Ok, w1, tgt) => (Ok, w1, tgt)
+           | (EValue, _, _) => match del_link w0 f p with          (* except ValueError: del f[path]; create again *)
+                               | (Ok, w1) => create_group w1 f p
+                               | (e, w1) => (e, w1, (f, O))
+                               end
+           | (e, _, _) => (e, w0, (f, O))
            end
     end in
   match prep with
-  | (Ok, w1) =>
-      match resolve w1 f p with
-      | Found f1 g =>
-          match write_tables w1 f1 g (cs_tables spec) with
-          | Some w2 => (Ok, set_attrs w2 f1 g (cs_attrs spec))
-          | None => (EValue, w1)
-          end
-      | r => (res_err r, w1)
+  | (Ok, w1, (f1, g)) =>                                      (* h5 = f[group_path] : the group just made *)
+      match write_tables w1 f1 g (cs_tables spec) with
+      | Some w2 => (Ok, set_attrs w2 f1 g (cs_attrs spec))
+      | None => (EValue, w1)
       end
-  | e => e
+  | (e, w1, _) => (e, w1)
   end.
 
 (** ---- histories *)
